@@ -1232,12 +1232,71 @@ func (a *Analysis) NewlineSymmetry() *report.RuleResult {
 	for _, fd := range load.FuncDecls(m.Pkg) {
 		fname := fd.Name.Name
 		type cmp struct {
-			expr string
-			eq   bool
-			c    byte
-			pos  token.Pos
+			expr   string
+			eq     bool
+			c      byte
+			pos    token.Pos
+			anchor ast.Node          // the whole condition (or case clause) the comparison is part of
+			ctx    map[ast.Node]bool // anchor, plus the conditions of the enclosing ifs (then side) and the enclosing case clauses
 		}
 		var cmps []cmp
+		// parents, to place every comparison in its condition and under the conditions that guard it
+		parent := map[ast.Node]ast.Node{}
+		{
+			var stack []ast.Node
+			ast.Inspect(fd.Body, func(n ast.Node) bool {
+				if n == nil {
+					stack = stack[:len(stack)-1]
+					return true
+				}
+				if len(stack) > 0 {
+					parent[n] = stack[len(stack)-1]
+				}
+				stack = append(stack, n)
+				return true
+			})
+		}
+		place := func(n ast.Node) (ast.Node, map[ast.Node]bool) {
+			// anchor: the outermost expression that contains n; for a case label the clause
+			var anchor ast.Node = n
+			cur := n
+			for {
+				p := parent[cur]
+				if _, isExpr := p.(ast.Expr); !isExpr {
+					if cc, ok := p.(*ast.CaseClause); ok {
+						for _, e := range cc.List {
+							if e == cur {
+								anchor = cc
+							}
+						}
+					}
+					break
+				}
+				cur = p
+				anchor = p
+			}
+			ctx := map[ast.Node]bool{anchor: true}
+			child := ast.Node(n)
+			for q := parent[n]; q != nil; child, q = q, parent[q] {
+				switch x := q.(type) {
+				case *ast.IfStmt:
+					if child == ast.Node(x.Body) {
+						ctx[x.Cond] = true
+					}
+				case *ast.CaseClause:
+					inList := false
+					for _, e := range x.List {
+						if ast.Node(e) == child {
+							inList = true
+						}
+					}
+					if !inList {
+						ctx[x] = true
+					}
+				}
+			}
+			return anchor, ctx
+		}
 		// locals that name one byte of the input: c := lex.data[p-1]
 		byteLocal := map[types.Object]ast.Expr{}
 		assignedTwice := map[types.Object]bool{}
@@ -1303,7 +1362,8 @@ func (a *Analysis) NewlineSymmetry() *report.RuleResult {
 						return
 					}
 					if e, ok := resolve(x); ok {
-						cmps = append(cmps, cmp{e, be.Op == token.EQL, v, be.Pos()})
+						an, ctx := place(be)
+						cmps = append(cmps, cmp{e, be.Op == token.EQL, v, be.Pos(), an, ctx})
 					}
 				}
 				side(be.X, be.Y)
@@ -1320,7 +1380,8 @@ func (a *Analysis) NewlineSymmetry() *report.RuleResult {
 				for _, c := range be.Body.List {
 					for _, ce := range c.(*ast.CaseClause).List {
 						if v, ok := nlConst(ce); ok {
-							cmps = append(cmps, cmp{e, true, v, ce.Pos()})
+							an, ctx := place(ce)
+							cmps = append(cmps, cmp{e, true, v, ce.Pos(), an, ctx})
 						}
 					}
 				}
@@ -1336,12 +1397,8 @@ func (a *Analysis) NewlineSymmetry() *report.RuleResult {
 			c    byte
 		}
 		have := map[key]bool{}
-		haveEq := map[key]bool{}
 		for _, c := range cmps {
 			have[key{c.expr, c.c}] = true
-			if c.eq {
-				haveEq[key{c.expr, c.c}] = true
-			}
 		}
 		neighbour := func(e string, d int) []string {
 			// data[X] -> data[X+1] / data[X-1], textually for the index forms the scanner uses
@@ -1371,20 +1428,26 @@ func (a *Analysis) NewlineSymmetry() *report.RuleResult {
 			if have[key{c.expr, other}] {
 				continue
 			}
-			// CR LF pair idiom: this byte is tested for LF and its left neighbour for CR, or for CR and its right neighbour for LF
+			// CR LF pair idiom: this byte is tested for LF and its left neighbour for CR, or for CR and its right
+			// neighbour for LF — in the same condition, or one test guarding the other (nested ifs, case clauses)
+			together := func(d cmp) bool { return c.ctx[d.anchor] || d.ctx[c.anchor] }
 			pair := false
 			if c.c == 10 {
 				// … and the byte before it *is* a CR
 				for _, nb := range neighbour(c.expr, -1) {
-					if haveEq[key{nb, 13}] {
-						pair = true
+					for _, d := range cmps {
+						if d.expr == nb && d.c == 13 && d.eq && together(d) {
+							pair = true
+						}
 					}
 				}
 			} else if c.eq {
 				// this byte *is* a CR and the next one is tested for LF
 				for _, nb := range neighbour(c.expr, +1) {
-					if have[key{nb, 10}] {
-						pair = true
+					for _, d := range cmps {
+						if d.expr == nb && d.c == 10 && together(d) {
+							pair = true
+						}
 					}
 				}
 			}
